@@ -412,7 +412,13 @@ def gen_graph(rng):
             s = subj()
             for _ in range(rng.choice([1, 2, 3])):
                 o = obj(2)
-                out.append([s, pred(), o])
+                pr = pred()
+                out.append([s, pr, o])
+                if o is not None and o[0] == "L" and o[2] is None and o[3] in (None, XSD + "string") and rng.random() < 0.2:
+                    # the simple literal and its xsd:string twin on the same subject and predicate: two RDF terms
+                    # for rdflib (only HexTuples may identify them)
+                    out.append([s, pr, L(o[1], dt=None if o[3] else XSD + "string")])
+                    tags.append("string_twin")
         elif shape == "type":
             out.append([rng.choice(bnodes) if bnodes and rng.random() < 0.3 else subj(), I(TYPE), iri()])
         elif shape == "tree":
@@ -765,8 +771,7 @@ def triggers(graph, fmt, base=None, bind=None):
             out.append("F15d")
     # F15e, F15f, F15h, F15o (Turtle family) and F15m, the non-IRI half of F15k (pretty-xml) were repaired in
     # /repo (ec2790c6, c1984258, fdf8d16b, 2521fbb8, d4c8e316, 83d416d7): no trigger any more
-    if fmt in TURTLE_FAMILY and any(t[0] == ["I", NIL] and t[1][1] in (FIRST, REST) for t in graph):
-        out.append("F15r")
+    # F15r (doList walking past rdf:nil) was repaired by 0dee69e9
     if fmt == "pretty-xml":
         if type_iri_unsafe(graph):
             out.append("F15k")
@@ -1218,7 +1223,7 @@ class TtlString(Suite):
 # ---------------------------------------------------------------- graph level: conformance only
 TRIGGER_NUM = {"F15": 1, "F15b": 2, "F15c": 3, "F15d": 4, "F15e": 5, "F15f": 6, "F15g": 7, "F15h": 8,
                "F15i": 9, "F15j": 10, "F15k": 11, "F15l": 12, "F15m": 13, "F15n": 14, "F15o": 15, "F15p": 16, "F15r": 17}
-FIXED_FINDINGS = {"F15b", "F15e", "F15f", "F15h", "F15m", "F15o"}   # repaired in /repo
+FIXED_FINDINGS = {"F15b", "F15e", "F15f", "F15h", "F15m", "F15o", "F15r"}   # repaired in /repo
 BINDS = [None, None, [["ex", "http://e/"], ["ns", "http://e/ns#"]], [["", "http://e/"]], [["ex", "http://e/ns#"]]]
 BASES = [None, None, None, "http://e/", "http://e/", "http://other.org/"]
 
@@ -1519,7 +1524,7 @@ class TtlList(Suite):
     oeq = "tl_obs_eqb"
     spec = "tl_spec"
     kf = "tl_kf"
-    kf_ids = {1: "F15r"}
+    kf_ids = {}      # F15r repaired by 0dee69e9: tl_kf is 0
     corr = "serializers/turtle.py + longturtle.py: isValidList, doList (with RecursiveSerializer.preprocess reference counts)"
     quick_n = 600
     thorough_n = 8000
